@@ -123,7 +123,7 @@ func c15EnumLits(yield func(c15LitCase)) {
 			continue
 		}
 		for _, t := range []string{"10", "10:30", "10:30:00", "23:59:59", "10:30:00.5", "10:30:00.50", "10:30:00.500", "10:30:00.5000", "10:30:00.12345", "10:30:00.123456", "00:00:00.001", "10:30:00.0"} {
-			for _, o := range []string{"", "Z", "+05:30", "-11:00", "+14:00", "+00:00", "-00:30"} {
+			for _, o := range []string{"", "Z", "+05:30", "-11:00", "+14:00", "+00:00", "-00:30", "-03:30", "-09:45"} {
 				yield(c15LitCase{Kind: "DateTime", Text: d + "T" + t + o})
 			}
 		}
@@ -179,7 +179,7 @@ func c15GenLit(s Src) c15LitCase {
 		if p < 3 {
 			return c15LitCase{Kind: "DateTime", Text: date(p) + "T"}
 		}
-		off := pickOne(s, []string{"", "Z", "+05:30", "-11:00", "+14:00", "-03:00", "+00:00"})
+		off := pickOne(s, []string{"", "Z", "+05:30", "-11:00", "+14:00", "-03:00", "+00:00", genOffset(s), genOffset(s)})
 		return c15LitCase{Kind: "DateTime", Text: date(2) + "T" + tm(p-3) + off}
 	case 2:
 		return c15LitCase{Kind: "Time", Text: tm(s.Intn(4))}
@@ -467,7 +467,7 @@ func c15GenHelper(s Src) c15HelperCase {
 	full := y + "-" + d2(1, 12) + "-" + d2(1, 28)
 	hms := d2(0, 23) + ":" + d2(0, 59) + ":" + d2(0, 59)
 	frac := pickOne(s, []string{"", "", "." + s.Str(digits, 3, 3), "." + s.Str(digits, 6, 6)})
-	off := pickOne(s, []string{"Z", "+05:30", "-11:00", "+14:00", "-03:00", "+00:00", "+01:00"})
+	off := pickOne(s, []string{"Z", "+05:30", "-11:00", "+14:00", "-03:00", "+00:00", "+01:00", genOffset(s), genOffset(s), genOffset(s)})
 	switch s.Intn(4) {
 	case 0:
 		return c15HelperCase{"date", pickOne(s, []string{y, y + "-" + d2(1, 12), full})}
